@@ -11,7 +11,8 @@ RULE = ("random corpora (1-3 repositories in simple / compound shards, 1-10 docu
 TRUSTED = ["correspondence harness harness/overlay/index/zz_verif_c01_test.go (generator, read-back of the index, serialiser, Go oracle)",
            "texts modelled as rune lists: byte-level operations of the code on valid UTF-8 are taken to coincide with the rune-level model",
            "regexp engine, unicode.ToLower and unicode.SimpleFold are external (Section variables; tables recorded from Go in the run)",
-           "posting lists at the level of sorted position lists (their byte coding is C09); nextFileIndex's galloping search as a linear scan"]
+           "posting lists at the level of sorted position lists (their byte coding is C09; only the byte SIZE of the delta-varint coding is modelled, for the trigram frequencies); nextFileIndex's galloping search as a linear scan",
+           "internal observable through the overlay: per substring atom (leftPad, rightPad, distance, freq=0) of the implementation's match tree is compared with the model's trigram selection"]
 ASSUME = ["documents are valid UTF-8", "total runes + pattern length < 2^32",
           "case-insensitive atoms: lower-casing and simple folding agree on the runes involved (otherwise C08)"]
 
@@ -47,6 +48,8 @@ def run(ctx):
         broken.append("harness %s failed (rc=%d): %s" % (h["run"], hr["rc"], hr["log"][-1500:]))
     ev = dict(ok=True, bad=[], evaluated=0, log="")
     mech_bad = []
+    leaf_bad = []
+    hyp_bad = []
     if cases:
         ev = vf.coq_eval_cases(ctx, pid, RUNNER["imports"], RUNNER["case_type"], "c01_mismatches", [c["coq"] for c in cases], shard=RUNNER["shard"])
         if not ev["ok"]:
@@ -61,6 +64,10 @@ def run(ctx):
             if not ev3["ok"]:
                 broken.append("model evaluation failed: " + ev3["log"][-1500:])
             hyp_bad = [ev["bad"][j] for j in ev3["bad"]]
+            ev4 = vf.coq_eval_cases(ctx, pid, RUNNER["imports"], RUNNER["case_type"], "c01_leaf_mismatches", [c["coq"] for c in sub], shard=RUNNER["shard"], tag="l")
+            if not ev4["ok"]:
+                broken.append("model evaluation failed: " + ev4["log"][-1500:])
+            leaf_bad = [ev["bad"][j] for j in ev4["bad"]]
             for i in ev["bad"]:
                 c = cases[i]
                 smp = c.get("sample") or {}
@@ -69,6 +76,8 @@ def run(ctx):
                     if smp.get("case") not in failed_cases:
                         failures.append(dict(key="prefilter-obligation:" + ",".join(sorted(x for x in c.get("class", []) if "=" not in x)),
                                              what="regexp prefilter obligation violated", replay=smp))
+                elif i in leaf_bad:
+                    broken.append("correspondence c01_verdict=4: the trigram selection of a substring atom (leftPad / rightPad / distance / freq=0: iterateNgrams, findSelectiveNgrams) differs between model and implementation on case %s" % json.dumps(smp, default=str)[:1500])
                 elif i in mech_bad:
                     broken.append("correspondence c01_verdict=1: the model's search mechanism and indexData.Search disagree on case %s" % json.dumps(smp, default=str)[:1500])
                 elif smp.get("case") not in failed_cases:
@@ -84,8 +93,8 @@ def run(ctx):
         rule=RULE,
         samples=[c.get("sample") for c in cases[:3]] or [],
         traces_validated_against_impl=ev["evaluated"],
-        correspondence_mismatches=len(mech_bad),
-        spec_mismatches_reproduced_by_model=len(ev["bad"]) - len(mech_bad),
+        correspondence_mismatches=len(mech_bad) + (len(leaf_bad) if ev["bad"] else 0),
+        spec_mismatches_reproduced_by_model=len(ev["bad"]) - len(mech_bad) - len(leaf_bad) - len(hyp_bad),
         oracle_failures=len(failures),
         input_distribution=vf.histogram(cases, "class"),
         trusted_base=TRUSTED,
